@@ -10,9 +10,13 @@
 // for a residue y can be self-signed by the key owner.
 #include "fix.hh"
 #include <algorithm>
+#include <sys/file.h>
+#include <fcntl.h>
 using namespace vf;
 const char *vf::PROPERTY = "C10";
 static void print_task_counts();
+// check() hashes a growing transcript through ~100 KB temporaries; with ASan's default 256 MB quarantine every one of them is a page-fault storm (see HARNESS_GUIDE)
+extern "C" const char *__asan_default_options() { return "quarantine_size_mb=16"; }
 void vf::harness_init() { if (getenv("C10_PRINT_TASKS")) print_task_counts(); }
 
 static const unsigned long SIZES[] = {672, 768, 1024, 2048};
@@ -34,7 +38,13 @@ struct Key {
   unsigned long size; bool nizk; unsigned idx;
   TMCG_SecretKey sk; TMCG_PublicKey pk; Z m, y, p, q;
   std::string pubtext, selfid; TextObj pub; // pub: 10 fields pub,name,email,type,m,y,nizk,sig,kid,val
-  Key(unsigned long s, bool n, unsigned i) : size(s), nizk(n), idx(i), sk(rabin_key_text(s, n, i)), pk(sk), m(sk.m), y(sk.y), p(sk.p), q(sk.q) {
+  // many shards start at once: generate each missing key fixture in one process only (the others wait on a lock file)
+  static std::string key_text(unsigned long s, bool n, unsigned i) {
+    std::ostringstream l; l << cache_dir() << "/.lock-rabinkey-" << s << "-" << n << "-" << i;
+    int fd = open(l.str().c_str(), O_CREAT | O_RDWR, 0644); if (fd >= 0) flock(fd, LOCK_EX);
+    std::string t = rabin_key_text(s, n, i); if (fd >= 0) { flock(fd, LOCK_UN); close(fd); } return t;
+  }
+  Key(unsigned long s, bool n, unsigned i) : size(s), nizk(n), idx(i), sk(key_text(s, n, i)), pk(sk), m(sk.m), y(sk.y), p(sk.p), q(sk.q) {
     std::ostringstream o; o << pk; pubtext = o.str(); pub = split_n(pubtext, 10); selfid = pub.f.size() == 10 ? pub.f[9] : "";
     if (pub.f.size() != 10 || m != p * q) throw std::runtime_error("fixture: unexpected key text layout");
   }
@@ -312,8 +322,8 @@ static void tamper_sigenc(Ctx &ctx, bool cipher) {
   }
   if (acc1 || acc2) ctx.fail(std::string("tamper/") + obj + "/" + tag + "-accepted", ctx.desc.str() + (cipher ? "" : std::string(acc1 ? " [public key]" : "") + (acc2 ? " [secret key]" : "")));
 }
-VF_ENUM(signature_tamper, 2520, 40000) { tamper_sigenc(ctx, false); }
-VF_ENUM(ciphertext_tamper, 2520, 40000) { tamper_sigenc(ctx, true); }
+VF_ENUM(signature_tamper, 2412, 40200) { tamper_sigenc(ctx, false); }
+VF_ENUM(ciphertext_tamper, 2412, 40200) { tamper_sigenc(ctx, true); }
 
 // (3b)/(4b) the recovered square / root carries bits above the byte-aligned padding width 8*floor(|m|/8):
 // a different square s' = s + j*2^(8*mnsize) < m (signature) or a different root x' = x + 2^(8*mnsize) < m
@@ -346,7 +356,13 @@ VF_SUB(value_above_padding_width, 600, 10000) {
 
 // =========================================================================== (5) key validation
 // independent prover for the three-stage validity proof with chosen round counts
-static std::string own_proof(const Key &K, const Z &y, size_t s1, size_t s2, size_t s3, bool &complete) {
+static std::string own_proof_uncached(const Key &K, const Z &y, size_t s1, size_t s2, size_t s3, bool &complete);
+static std::string own_proof(const Key &K, const Z &y, size_t s1, size_t s2, size_t s3, bool &complete) { // pure function of its arguments: memoised (shrinking re-runs the same task)
+  static std::map<std::string, std::pair<std::string, bool> > memo; std::ostringstream k; k << K.desc() << "/" << y << "/" << s1 << "/" << s2 << "/" << s3;
+  auto it = memo.find(k.str()); if (it == memo.end()) { bool c; std::string p = own_proof_uncached(K, y, s1, s2, s3, c); it = memo.insert(std::make_pair(k.str(), std::make_pair(p, c))).first; }
+  complete = it->second.second; return it->second.first;
+}
+static std::string own_proof_uncached(const Key &K, const Z &y, size_t s1, size_t s2, size_t s3, bool &complete) {
   const Z &m = K.m; complete = true;
   std::string input = z62(m) + "^" + z62(y), out = "nzk^";
   size_t mnsize = mpz_sizeinbase(m.get_mpz_t(), 2) / 8; std::vector<unsigned char> mn(mnsize);
@@ -371,7 +387,9 @@ static std::string own_proof(const Key &K, const Z &y, size_t s1, size_t s2, siz
 // self-signature by the key owner over the (possibly altered) public fields
 static std::string resign(const Key &K, const TextObj &pub) {
   std::string data; for (size_t i = 1; i <= 6; i++) data += pub.f[i] + "|";
-  TMCG_SecretKey s2(K.sk); s2.sig = ""; std::string s = s2.sign(data); TextObj o = split_n(s, 3);
+  TMCG_SecretKey s2(K.sk); s2.sig = "";
+  rng_push(hash_str(data)); std::string s = s2.sign(data); rng_pop(); // the signature is a function of the signed fields only
+  TextObj o = split_n(s, 3);
   if (o.f.size() != 3) throw std::runtime_error("harness: sign() gave " + clip(s));
   const std::string &val = o.f[2]; size_t n = std::min<size_t>(TMCG_KEYID_SIZE, val.size());
   return "sig|ID" + std::to_string(n) + "^" + val.substr(val.size() - n) + "|" + val + "|";
@@ -381,7 +399,13 @@ static std::string pub_with(const Key &K, TextObj pub, bool re_sign) {
   return join(pub);
 }
 // import + check of a public key text; refusal at either step (or an exception) is a refusal
-static bool key_accepted(const std::string &text, std::string &stage) {
+static bool key_accepted_uncached(const std::string &text, std::string &stage);
+static bool key_accepted(const std::string &text, std::string &stage) { // deterministic in the text: memoised per process so that shrinking does not repeat multi-second validations
+  static std::map<std::string, std::pair<bool, std::string> > memo; std::string k = std::to_string(text.size()) + "/" + std::to_string(hash_str(text)) + "/" + std::to_string(hash_str(text, 7));
+  auto it = memo.find(k); if (it == memo.end()) { std::string st; bool a = key_accepted_uncached(text, st); it = memo.insert(std::make_pair(k, std::make_pair(a, st))).first; }
+  stage = it->second.second; return it->second.first;
+}
+static bool key_accepted_uncached(const std::string &text, std::string &stage) {
   try { TMCG_PublicKey k; if (!k.import(text)) { stage = "import"; return false; } stage = "check"; return k.check(); }
   catch (const std::exception &e) { stage = std::string("exception ") + e.what(); return false; }
 }
@@ -405,11 +429,12 @@ enum { KT_ACCEPT, KT_FIELD, KT_RESIGNED_FIELD, KT_COUNTER, KT_PROOFVAL, KT_PROOF
 static const size_t STAGE_N[3] = {TMCG_KEY_NIZK_STAGE1, TMCG_KEY_NIZK_STAGE2, TMCG_KEY_NIZK_STAGE3};
 static const char *PUBF[] = {"magic", "name", "email", "type", "modulus", "y", "nizk", "selfsig-magic", "selfsig-keyid", "selfsig-value"};
 static std::vector<std::string> counter_muts() { return {"coherent-minus-1", "number-minus-1", "number-plus-1", "zero", "one", "empty", "non-digit", "trailing-junk", "overflow-2^64+n", "minus-one", "leading-space", "coherent-plus-1"}; }
-static std::vector<std::string> proofval_muts() { return {"+1", "negated(m-v)", "random-residue", "zero"}; }
+// stage 1 answers are unique m-th roots (the negated value must be refused); in stages 2 and 3 the negated root is an equivalent answer
+static std::vector<std::string> proofval_muts(size_t st) { if (st == 0) return {"+1", "negated(m-v)", "random-residue", "zero"}; return {"+1", "-1", "random-residue", "zero"}; }
 static std::vector<KTask> &key_tasks(bool thorough) {
   static std::vector<KTask> T[2]; std::vector<KTask> &t = T[thorough];
   if (!t.empty()) return t;
-  for (size_t nizk = 0; nizk < 2; nizk++) for (size_t idx = 0; idx < (nizk ? 2 : 3); idx++) for (size_t via = 0; via < 3; via++) t.push_back(KTask{KT_ACCEPT, nizk * 8 + idx, via, ""});
+  for (size_t nizk = 0; nizk < 2; nizk++) for (size_t idx = 0; idx < (nizk ? 2 : 3); idx++) for (size_t via = 0; via < 3; via++) if (!nizk || idx == 0 || via == 1) t.push_back(KTask{KT_ACCEPT, nizk * 8 + idx, via, ""});
   // un-re-signed alteration of every field, on a key with and one without proof
   NumCtx nm; nm.roots = nm.cipher = false; nm.modulus = true; NumCtx ny; ny.roots = ny.cipher = ny.modulus = false; NumCtx nv; nv.roots = true; nv.cipher = nv.modulus = false;
   for (size_t nizk = 0; nizk < 2; nizk++) {
@@ -428,12 +453,12 @@ static std::vector<KTask> &key_tasks(bool thorough) {
   for (auto &m : {"+1", "random-residue", "zero", "one", "m-1", "negated(m-v)", "+m"}) t.push_back(KTask{KT_RESIGNED_FIELD, 5, 1, m});
   for (size_t st = 0; st < 3; st++) for (auto &m : counter_muts()) t.push_back(KTask{KT_COUNTER, st, 0, m});
   if (!thorough) {
-    for (size_t st = 0; st < 3; st++) for (auto &m : proofval_muts()) {
+    for (size_t st = 0; st < 3; st++) for (auto &m : proofval_muts(st)) {
       t.push_back(KTask{KT_PROOFVAL_AT, st, 0, m}); t.push_back(KTask{KT_PROOFVAL_AT, st, STAGE_N[st] - 1, m});
-      for (size_t r = 0; r < 6; r++) t.push_back(KTask{KT_PROOFVAL, st, r, m});
+      for (size_t r = 0; r < 4; r++) t.push_back(KTask{KT_PROOFVAL, st, r, m});
     }
-  } else for (size_t st = 0; st < 3; st++) for (size_t pos = 0; pos < STAGE_N[st]; pos++) for (auto &m : proofval_muts()) t.push_back(KTask{KT_PROOFVAL_AT, st, pos, m});
-  for (size_t st = 0; st < 3; st++) for (auto &m : {"empty", "non-digit-text", "value-deleted", "+m", "minus-sign"}) t.push_back(KTask{KT_PROOFVAL, st, 9, m});
+  } else for (size_t st = 0; st < 3; st++) for (size_t pos = 0; pos < STAGE_N[st]; pos++) for (auto &m : proofval_muts(st)) t.push_back(KTask{KT_PROOFVAL_AT, st, pos, m});
+  for (size_t st = 0; st < 3; st++) for (auto &m : {"empty", "non-digit-text", "value-deleted", "+m", "negated(m-v)"}) if (st || std::string(m) != "negated(m-v)") t.push_back(KTask{KT_PROOFVAL, st, 9, m});
   for (size_t v = 0; v < 3; v++) t.push_back(KTask{KT_Y_RESIDUE, v, 0, ""});
   t.push_back(KTask{KT_FOREIGN_PROOF, 0, 0, ""}); t.push_back(KTask{KT_RELABEL_NIZK, 0, 0, ""}); t.push_back(KTask{KT_RELABEL_NIZK, 1, 0, ""});
   t.push_back(KTask{KT_OWN_PROOF, 0, 0, ""});
@@ -449,9 +474,14 @@ static bool parse_proof(const std::string &nizk, Proof &P) {
 }
 static std::string proof_text(const Proof &P) { std::string s = "nzk^"; for (size_t st = 0; st < 3; st++) { s += P.cnt[st] + "^"; for (auto &v : P.val[st]) s += v + "^"; } return s; }
 
-VF_ENUM(key_check, 1845, 8000) {
+static void key_check_case(Ctx &ctx);
+#include <chrono>
+VF_ENUM(key_check, 1641, 6252) { // 547 (thorough 1563) tasks x 3 (4) key sizes, visited in a stride order so that the expensive proof tasks spread over the shards
+  auto t0 = std::chrono::steady_clock::now(); key_check_case(ctx); double dt = std::chrono::duration<double>(std::chrono::steady_clock::now() - t0).count(); if (getenv("C10_TIMING")) fprintf(stderr, "T %.3f %s\n", dt, ctx.desc.str().substr(0, 110).c_str()); }
+static void key_check_case(Ctx &ctx) {
   std::vector<KTask> &T = key_tasks(ctx.thorough); size_t i = ctx.c.raw(), ns = nsizes(ctx);
   if (i >= T.size() * ns) { ctx.discard(); return; }
+  i = (i * 1009) % (T.size() * ns);
   const KTask &tk = T[i % T.size()]; size_t si = i / T.size(); unsigned long size = SIZES[si];
   ctx.label("size=" + std::to_string(size)); std::string stage, why;
   auto must_refuse = [&](const std::string &text, const std::string &tag) {
